@@ -1411,7 +1411,38 @@ def _sum(it, xs, start=0):
     return r
 
 
+class SIter(SV):
+    """iter() of a concrete sequence: a position in it"""
+
+    def __init__(self, items):
+        self.items = list(items)
+        self.pos = 0
+
+
+def _iter(it, xs):
+    if isinstance(xs, SIter):
+        return xs
+    if not isinstance(xs, (list, tuple)):
+        raise Unsupported("iter(%r)" % (xs,))
+    return SIter(xs)
+
+
+_NO_DEFAULT = object()
+
+
+def _next(it, i, default=_NO_DEFAULT):
+    if not isinstance(i, SIter):
+        raise Unsupported("next(%r)" % (i,))
+    if i.pos < len(i.items):
+        i.pos += 1
+        return i.items[i.pos - 1]
+    if default is _NO_DEFAULT:
+        it.raise_("StopIteration")
+    return default
+
+
 BUILTINS = {
+    "iter": _iter, "next": _next,
     "isinstance": _isinstance, "getattr": _getattr, "hasattr": _hasattr, "float": _float,
     "int": _int, "str": _str, "repr": _repr, "len": _len, "any": _any, "all": _all,
     "type": _type, "callable": _callable, "max": _max, "min": _min, "abs": _abs,
